@@ -29,7 +29,6 @@ from unified_planning.engines import CompilationKind
 from unified_planning.engines.compilers.ks0_compiler import Ks0Compiler
 from spec import seqsem
 
-UNITS = []
 CAP = 30000
 
 
@@ -602,7 +601,268 @@ def replay_file(data):
     return {"reproduced": bool(failures), "concrete": c, "observed": [f["what"] for f in failures][:4]}
 
 
-LEVEL = "exploration"
+# ======================================================================================================= proved kernels
+# Small flat functions of the real compiler that the soundness / completeness argument stands on:
+#   _literal_parts             a literal is a fluent expression (atom, positive) or its negation (atom, negative); anything else is rejected
+#   _negate_literal            the complement: same atom, opposite polarity
+#   _assign_oneof_choice       (contingent input) extends an assignment so that exactly the chosen literal of a oneof group holds; False exactly
+#                              when no extension can do that
+#   _literal_holds             truth of a literal under an assignment
+#   _map_back_ks0_action_instance   plan back-conversion: the original action on the very same parameters, None for the compiler's own merge actions
+import z3
+from pyvc.values import Ref, Seq, Map, Opt, SBool, SRef, SUnion, SMap, Rec, CList, ExcVal, fresh_name, zbool, zint
+from pyvc.values import Bool as PBool
+from pyvc.verify import Unit
+from pyvc.engine import LoopSpec
+from pyvc import builtins as B
+import unified_planning.engines.compilers.ks0_compiler as _ks
+from unified_planning.exceptions import UPUsageError as _Usage30
+
+LIT, MGR30 = Ref("Literal30"), Ref("ExpressionManager30")
+_Lz = LIT.z3sort()
+ISF = z3.Function("is_fluent_exp", _Lz, z3.BoolSort())
+ISN = z3.Function("is_not", _Lz, z3.BoolSort())
+ARG0 = z3.Function("arg0", _Lz, _Lz)
+NOT30 = z3.Function("Not", _Lz, _Lz)
+ATOM = z3.Function("_literal_parts.atom", _Lz, _Lz)
+NEG = z3.Function("_literal_parts.negative", _Lz, z3.BoolSort())
+LIT.methods["is_fluent_exp"] = lambda e, st, sv, a, k: iter([(st, SBool(ISF(sv.z)))])
+LIT.methods["is_not"] = lambda e, st, sv, a, k: iter([(st, SBool(ISN(sv.z)))])
+LIT.methods["arg"] = lambda e, st, sv, a, k: iter([(st, LIT.wrap(ARG0(sv.z)))])
+MGR30.methods["Not"] = lambda e, st, sv, a, k: iter([(st, LIT.wrap(NOT30(a[0].z)))])
+
+
+def _parts_contract(e, st, a, k):
+    lit = a[0]
+    ok = z3.Or(ISF(lit.z), z3.And(ISN(lit.z), ISF(ARG0(lit.z))))
+    for s2, good in e.branch(st, ok, "literal"):
+        if good:
+            yield s2, (LIT.wrap(ATOM(lit.z)), SBool(NEG(lit.z)))
+        else:
+            yield s2, ExcVal(_Usage30, (), "_literal_parts")
+
+
+def parts_axioms():
+    l = z3.Const("l!30", _Lz)
+    return [z3.ForAll([l], z3.Implies(ISF(l), z3.And(ATOM(l) == l, z3.Not(NEG(l)))), patterns=[ATOM(l)]),
+            z3.ForAll([l], z3.Implies(z3.And(z3.Not(ISF(l)), ISN(l), ISF(ARG0(l))), z3.And(ATOM(l) == ARG0(l), NEG(l))), patterns=[ATOM(l)]),
+            # the expression manager: Not(x) of a fluent expression is a negation whose argument is x, and is not itself a fluent expression
+            z3.ForAll([l], z3.And(ISN(NOT30(l)), ARG0(NOT30(l)) == l, z3.Not(ISF(NOT30(l)))), patterns=[NOT30(l)])]
+
+
+class LiteralParts(Unit):
+    prop = "C30"
+    name = "Ks0Compiler._literal_parts"
+    doc = "(x, False) for a fluent expression x, (x, True) for Not(x) with x a fluent expression, UPUsageError for anything else"
+    allowed_raises = (_Usage30,)
+
+    def target(self):
+        return _ks.Ks0Compiler._literal_parts
+
+    def setup(self, eng, st):
+        lit = LIT.fresh("literal")
+        return [lit], {}, dict(lit=lit)
+
+    def post(self, eng, ctx, st, out):
+        l = ctx["lit"].z
+        if out[0] == "raise":
+            st.oblige("rejected only when the expression is neither a fluent expression nor the negation of one", z3.Not(z3.Or(ISF(l), z3.And(ISN(l), ISF(ARG0(l))))))
+            return
+        r = eng.deref(st, out[1])
+        atom, neg = r[0], eng.as_bool_value(st, r[1])
+        st.oblige("a fluent expression is its own atom, positive", z3.Implies(ISF(l), z3.And(atom.z == l, z3.Not(zbool(neg)))))
+        st.oblige("a negated fluent expression has its argument as atom, negative", z3.Implies(z3.Not(ISF(l)), z3.And(atom.z == ARG0(l), zbool(neg), ISN(l), ISF(ARG0(l)))))
+
+
+class NegateLiteral(Unit):
+    prop = "C30"
+    name = "Ks0Compiler._negate_literal"
+    doc = "the complement of a literal: same atom, opposite polarity (so negating twice gives a literal with the original atom and polarity)"
+    allowed_raises = (_Usage30,)
+
+    def target(self):
+        return _ks.Ks0Compiler._negate_literal
+
+    def configure(self, eng):
+        eng.axioms += parts_axioms()
+        eng.contracts[_ks.Ks0Compiler._literal_parts] = _parts_contract
+
+    def setup(self, eng, st):
+        lit = LIT.fresh("literal")
+        return [lit, MGR30.fresh("manager")], {}, dict(lit=lit)
+
+    def post(self, eng, ctx, st, out):
+        if out[0] != "return":
+            return
+        l, r = ctx["lit"].z, out[1].z
+        st.oblige("the result is a literal", z3.Or(ISF(r), z3.And(ISN(r), ISF(ARG0(r)))))
+        st.oblige("same atom, opposite polarity", z3.And(ATOM(r) == ATOM(l), NEG(r) == z3.Not(NEG(l))))
+
+
+QN_AOC = "unified_planning.engines.compilers.ks0_compiler.Ks0Compiler._assign_oneof_choice"
+
+
+class AssignOneofChoice(Unit):
+    prop = "C30"
+    allowed_raises = (_Usage30,)
+
+    def __init__(self, complete):
+        self.complete = complete
+        self.name = "Ks0Compiler._assign_oneof_choice" + ("[completeness]" if complete else "[soundness]")
+        self.doc = ("False is returned only when NO assignment extending the given one makes exactly the chosen literal of the group true" if complete else
+                    "True: the given assignment is extended (old entries kept, only atoms of the group added) so that the chosen literal holds and every other "
+                    "literal of the group is false")
+
+    def target(self):
+        return _ks.Ks0Compiler._assign_oneof_choice
+
+    def _need(self, i, chosen, lit):
+        return (i == chosen) != NEG(lit)
+
+    def configure(self, eng):
+        eng.axioms += parts_axioms()
+        eng.contracts[_ks.Ks0Compiler._literal_parts] = _parts_contract
+        unit = self
+
+        def inv(L):
+            i = zint(L._i)
+            a1, a0, g, ch = L.assignment, unit._a0, unit._g, unit._chosen
+            j = z3.Int(fresh_name("j"))
+            k = z3.Const(fresh_name("k"), _Lz)
+            lj = z3.Select(g.arr, j)
+            out = [("the literals handled so far have the value exactly-the-chosen-one requires",
+                    z3.ForAll([j], z3.Implies(z3.And(0 <= j, j < i), z3.And(z3.Select(a1.has, ATOM(lj)), z3.Select(a1.val, ATOM(lj)) == unit._need(j, ch, lj))))),
+                   ("the given entries are kept", z3.ForAll([k], z3.Implies(z3.Select(a0.has, k), z3.And(z3.Select(a1.has, k), z3.Select(a1.val, k) == z3.Select(a0.val, k)))))]
+            if unit.complete:
+                E = unit._E
+                out.append(("everything assigned so far is forced: it agrees with every assignment that extends the given one and meets the requirement",
+                            z3.ForAll([k], z3.Implies(z3.Select(a1.has, k), z3.Select(E, k) == z3.Select(a1.val, k)))))
+            else:
+                out.append(("only atoms of the group are added", z3.ForAll([k], z3.Implies(z3.And(z3.Select(a1.has, k), z3.Not(z3.Select(a0.has, k))),
+                                                                                         z3.Exists([j], z3.And(0 <= j, j < i, ATOM(z3.Select(g.arr, j)) == k))))))
+            return out
+        eng.loops[(QN_AOC, 0)] = LoopSpec(inv, modifies=["assignment", "index", "literal", "atom", "is_negative", "value"],
+                                          types={"assignment": Map(LIT, PBool), "index": B.Int, "literal": LIT, "atom": LIT, "is_negative": PBool, "value": PBool})
+
+    def setup(self, eng, st):
+        a0 = eng.fresh_of(st, Map(LIT, PBool), "assignment")
+        g = eng.fresh_of(st, Seq(LIT), "group")
+        chosen = B.Int.fresh("chosen_index")
+        st.assume(chosen.z >= 0, chosen.z < g.n)
+        self._a0, self._g, self._chosen = a0, g, chosen.z
+        if self.complete:
+            E = z3.Array(fresh_name("any_extension"), _Lz, z3.BoolSort())
+            k = z3.Const(fresh_name("k"), _Lz)
+            j = z3.Int(fresh_name("j"))
+            lj = z3.Select(g.arr, j)
+            st.assume(z3.ForAll([k], z3.Implies(z3.Select(a0.has, k), z3.Select(E, k) == z3.Select(a0.val, k))),
+                      z3.ForAll([j], z3.Implies(z3.And(0 <= j, j < g.n), z3.And(z3.Or(ISF(lj), z3.And(ISN(lj), ISF(ARG0(lj)))),
+                                                                                z3.Select(E, ATOM(lj)) == self._need(j, chosen.z, lj)))))
+            self._E = E
+        loc = st.alloc(a0, "dict")
+        return [loc, g, chosen], {}, dict(loc=loc, a0=a0, g=g)
+
+    def post(self, eng, ctx, st, out):
+        if out[0] != "return":
+            return
+        r = eng.as_bool_value(st, out[1])
+        a1, a0, g, ch = st.load(ctx["loc"]), ctx["a0"], ctx["g"], self._chosen
+        if self.complete:
+            st.oblige("when some extension of the given assignment makes exactly the chosen literal true, the answer is True", zbool(r))
+            return
+        j = z3.Int(fresh_name("j"))
+        k = z3.Const(fresh_name("k"), _Lz)
+        lj = z3.Select(g.arr, j)
+        st.oblige("True: the chosen literal holds and every other literal of the group is false",
+                  z3.Implies(zbool(r), z3.ForAll([j], z3.Implies(z3.And(0 <= j, j < g.n),
+                                                                 z3.And(z3.Select(a1.has, ATOM(lj)), (z3.Select(a1.val, ATOM(lj)) != NEG(lj)) == (j == ch))))))
+        st.oblige("the given entries are kept", z3.ForAll([k], z3.Implies(z3.Select(a0.has, k), z3.And(z3.Select(a1.has, k), z3.Select(a1.val, k) == z3.Select(a0.val, k)))))
+
+
+class LiteralHolds(Unit):
+    prop = "C30"
+    name = "Ks0Compiler._literal_holds"
+    doc = "a positive literal holds iff its atom is assigned True, a negative one iff its atom is assigned False"
+    allowed_raises = (_Usage30, KeyError)
+
+    def target(self):
+        return _ks.Ks0Compiler._literal_holds
+
+    def configure(self, eng):
+        eng.axioms += parts_axioms()
+        eng.contracts[_ks.Ks0Compiler._literal_parts] = _parts_contract
+
+    def setup(self, eng, st):
+        a = eng.fresh_of(st, Map(LIT, PBool), "assignment")
+        lit = LIT.fresh("literal")
+        return [st.alloc(a, "dict"), lit], {}, dict(a=a, lit=lit)
+
+    def post(self, eng, ctx, st, out):
+        a, l = ctx["a"], ctx["lit"].z
+        if out[0] == "raise":
+            if out[1].cls is KeyError:
+                st.oblige("KeyError only for an unassigned atom", z3.Not(z3.Select(a.has, ATOM(l))))
+            return
+        st.oblige("truth of the literal under the assignment", zbool(eng.as_bool_value(st, out[1])) == (z3.Select(a.val, ATOM(l)) != NEG(l)))
+
+
+ACT30, PAR30, AI30 = Ref("Action30"), Ref("Parameters30"), Ref("ActionInstance30", fields={"action": Ref("Action30"), "actual_parameters": Ref("Parameters30")})
+
+
+class MapBackInstance(Unit):
+    prop = "C30"
+    name = "Ks0Compiler._map_back_ks0_action_instance"
+    doc = "the original action on the very same parameters; None exactly for a compiled action without counterpart (merge actions); KeyError only for an action the compiler did not produce"
+    allowed_raises = (KeyError,)
+
+    def target(self):
+        return _ks.Ks0Compiler._map_back_ks0_action_instance
+
+    def configure(self, eng):
+        def new_ai(e, st, a, k):
+            st.ghost["built"] = (a[0], a[1] if len(a) > 1 else k.get("params"))
+            yield st, AI30.fresh("mapped_back")
+        eng.contracts[_ks.ActionInstance] = new_ai
+
+    def setup(self, eng, st):
+        ai = AI30.fresh("action_instance")
+        has = z3.Array(fresh_name("map.has"), ACT30.z3sort(), z3.BoolSort())
+        none = z3.Array(fresh_name("map.isnone"), ACT30.z3sort(), z3.BoolSort())
+        val = z3.Array(fresh_name("map.val"), ACT30.z3sort(), ACT30.z3sort())
+        M = Ref("NewToOld30")
+
+        def getitem(e, s, sv, a, k):
+            for s2, ok in e.branch(s, z3.Select(has, a[0].z), "map:has"):
+                if not ok:
+                    yield s2, ExcVal(KeyError, (), "new_to_old_action[...]")
+                else:
+                    yield s2, SUnion([(z3.Select(none, a[0].z), None), (z3.Not(z3.Select(none, a[0].z)), ACT30.wrap(z3.Select(val, a[0].z)))])
+        M.methods["__getitem__"] = getitem
+        return [ai, M.fresh("new_to_old_action")], {}, dict(ai=ai, has=has, none=none, val=val)
+
+    def post(self, eng, ctx, st, out):
+        ai = ctx["ai"]
+        act = B._uf("ActionInstance30.action", AI30.z3sort(), ACT30.z3sort())(ai.z)
+        par = B._uf("ActionInstance30.actual_parameters", AI30.z3sort(), PAR30.z3sort())(ai.z)
+        if out[0] == "raise":
+            st.oblige("KeyError only for an action without an entry", z3.Not(z3.Select(ctx["has"], act)))
+            return
+        r = out[1]
+        if r is None:
+            st.oblige("None only for an action mapped to None", z3.And(z3.Select(ctx["has"], act), z3.Select(ctx["none"], act)))
+            return
+        built = st.ghost.get("built")
+        st.oblige("an action instance is built", z3.BoolVal(built is not None))
+        if built is not None:
+            st.oblige("the original action on the very same parameters",
+                      z3.And(z3.Select(ctx["has"], act), z3.Not(z3.Select(ctx["none"], act)), built[0].z == z3.Select(ctx["val"], act),
+                             (built[1].z == par) if isinstance(built[1], SRef) else z3.BoolVal(False)))
+
+
+UNITS = [LiteralParts(), NegateLiteral(), AssignOneofChoice(False), AssignOneofChoice(True), LiteralHolds(), MapBackInstance()]
+LEVEL = "other"
 EXPLANATION = __doc__
-TRUSTED = ["bounded only; both searches use the reference successor semantics of spec/seqsem.py", "completeness is decided only when the compiled state space is exhausted within the cap"]
+TRUSTED = ["P kernels: FNode.is_fluent_exp / is_not / arg(0) and ExpressionManager.Not are opaque with the axioms `Not(x)` is a negation of x and not a fluent expression; "
+           "the translation itself (_compile_normalized_problem, relevance relation, basis reduction) is bounded only (run-time contracts + exhaustive search)",
+           "both searches use the reference successor semantics of spec/seqsem.py", "completeness is decided only when the compiled state space is exhausted within the cap"]
 USES_THEORY = False
